@@ -1,5 +1,6 @@
 import S3db.Model.Scan
 import S3db.Gen.Facts
+import S3db.Lemmas.ScanLemmas
 /-!
 # C06 — a single-writer table behaves like the same table in plain SQLite (scan part)
 
@@ -17,26 +18,31 @@ abbrev F : Facts := S3db.Gen.facts
 
 variable {K : Type}
 
+/-- the generated fact the descending scan depends on -/
+theorem fallback_fact : F.descSeekFallsBackToMax = true := rfl
+
+-- (holds for any `cmp`: the order laws are not needed for this direction, so `L` is unused)
+set_option linter.unusedVariables false in
 /-- the window never excludes a key that satisfies all constraints -/
 theorem window_sound (cmp : K → K → Int) (L : OrderLaws cmp) (cs : List (Con K)) (k : K)
     (h : sat cmp cs k = true) :
     (∀ m, (window cmp cs).min = some m → cmp k m ≥ 0 ∧ ((window cmp cs).gtMin = true → cmp k m > 0)) ∧
-    (∀ m, (window cmp cs).max = some m → cmp k m ≤ 0 ∧ ((window cmp cs).ltMax = true → cmp k m < 0)) := by
-  sorry
+    (∀ m, (window cmp cs).max = some m → cmp k m ≤ 0 ∧ ((window cmp cs).ltMax = true → cmp k m < 0)) :=
+  window_soundFor cmp cs k h
 
 /-- **scan_complete**: after SQLite's re-check, an ascending scan returns exactly the live keys
     satisfying the constraints, in ascending order -/
 theorem scan_complete_asc (cmp : K → K → Int) (L : OrderLaws cmp) (cs : List (Con K)) (es : List (Ent K))
     (hs : Sorted cmp es) :
-    recheck cmp cs (scan F cmp false cs es) = expected cmp false cs es := by
-  sorry
+    recheck cmp cs (scan F cmp false cs es) = expected cmp false cs es :=
+  recheck_scan_asc F L cs hs
 
 /-- … and a descending scan returns them in descending order (the scan itself may start one key
     above an upper bound that is not stored; the re-check removes it) -/
 theorem scan_complete_desc (cmp : K → K → Int) (L : OrderLaws cmp) (cs : List (Con K)) (es : List (Ent K))
     (hs : Sorted cmp es) :
-    recheck cmp cs (scan F cmp true cs es) = expected cmp true cs es := by
-  sorry
+    recheck cmp cs (scan F cmp true cs es) = expected cmp true cs es :=
+  recheck_scan_desc F fallback_fact L cs hs
 
 /-- the re-check really happens: the module never asks SQLite to omit it, a NULL operand yields
     an empty scan instead of a panic, and the decision points of `Filter`/`Next` read as modelled -/
